@@ -85,6 +85,26 @@ def check_conversion(ctx, kind, u1, u2, x, case):
         ctx.violation('C05:inplace-differs-from-copy', {'kind': kind, 'value': x, 'from': u1, 'to': u2, 'inplace': [q2.value, q2.unit],
                                                         'copy': [r.value, r.unit], 'returned_same_object': r2 is q2}, case)
         return
+    # the same object converted again (in place, then copy): a conversion must not depend on the object's history
+    us = SI.units(kind)
+    u3 = us[(us.index(u2) + 1 + (hash_small(x) % max(1, len(us) - 1))) % len(us)]
+    try:
+        q2.to(u3, inplace=True)
+        again = q2.to(u1)
+        eq = (q2 == K(x, u1)) if u3 == u1 else None
+    except ValueError:
+        again = None              # sign-constrained kind underflowing on the way (defect D14 territory, judged by C19)
+    except Exception as ex:
+        ctx.violation('C05:chained-conversion-raised', {'kind': kind, 'value': x, 'chain': [u1, u2, u3, u1], 'exception': type(ex).__name__ + ': ' + str(ex)[:100]}, case)
+        return
+    if again is not None:
+        ctx.count('chained_conversions')
+        e3 = SI.convert(kind, x, u1, u3)
+        if q2.unit != u3 or SI.ulps_apart(float(q2.value), e3) > 16 or again.unit != u1 or SI.ulps_apart(float(again.value), float(x)) > 32:
+            if not (x != 0 and (q2.value == 0 or again.value == 0)):          # underflow artefacts are C19's D14
+                ctx.violation('C05:conversion-depends-on-history', {'kind': kind, 'value': x, 'chain': [u1, u2 + ' (in place)', u3 + ' (in place)', u1 + ' (copy)'],
+                                                                    'after_second_inplace': [q2.value, q2.unit], 'reference': e3, 'back': [again.value, again.unit]}, case)
+                return
     # there and back
     try:
         back = r.to(u1)
@@ -96,6 +116,10 @@ def check_conversion(ctx, kind, u1, u2, x, case):
     ctx.max('worst_roundtrip_ulp', ub)
     if back.unit != u1 or ub > 16:
         ctx.violation('C05:roundtrip', {'kind': kind, 'value': x, 'from': u1, 'to': u2, 'back': [back.value, back.unit], 'ulps': ub}, case)
+
+
+def hash_small(x):
+    return int(abs(x) * 7919) % 97 if x == x and abs(x) < 1e300 else 0
 
 
 def oracle_cmp(sa, sb):
